@@ -611,7 +611,7 @@ class NodeEnv:
             return anyp and not anyc
         if oc == 'failed':
             return not anyc and not anyp
-        if oc == 'failed_warning':
+        if oc in ('failed_warning', 'failed_warning_empty'):
             return True
         if oc.startswith('error'):
             return True
@@ -626,12 +626,16 @@ class NodeEnv:
             m.event('pay_return', cid, oc, tuple((p.pid, p.status) for p in env.parts))
             h = c.info['hash']
             if oc.startswith('error'):
-                code = int(oc.split(':')[1]) if ':' in oc else 210
-                return env.finish(m, c, err(rpc_error(m, code)))
-            st = {'complete': 'COMPLETE', 'pending': 'PENDING', 'failed': 'FAILED', 'failed_warning': 'FAILED'}[oc]
+                arg = oc.split(':')[1] if ':' in oc else '210'
+                if arg == 'none':
+                    # the command reached the node but its answer was lost / unreadable: an error without a node error code
+                    return env.finish(m, c, err(rpc_error(m, None)))
+                return env.finish(m, c, err(rpc_error(m, int(arg))))
+            st = {'complete': 'COMPLETE', 'pending': 'PENDING', 'failed': 'FAILED', 'failed_warning': 'FAILED', 'failed_warning_empty': 'FAILED'}[oc]
             pre = preimage_of(h) if oc == 'complete' else m.fresh('garbage_preimage')
             resp = mk_struct(m, 'PayResponse', status=enum_unit(m, 'PayStatus', st), payment_preimage=secret_value(pre),
-                             warning_partial_completion=some(Seq([], 'str', tag='warn')) if oc == 'failed_warning' else none(),
+                             warning_partial_completion=(some(Seq(list(b'partial'), 'str')) if oc == 'failed_warning' else
+                                                         some(Seq([], 'str')) if oc == 'failed_warning_empty' else none()),
                              amount_msat=Adt('Amount', None, {0: 0}), amount_sent_msat=Adt('Amount', None, {0: 0}),
                              created_at=Opaque('float', 0.0), parts=len(c.info.get('parts', [])), payment_hash=hash_value(h))
             env.finish(m, c, ok(resp))
